@@ -149,9 +149,21 @@ structure Acc where
 
 def kidsOf (nm : String) (vs : List J) : List (Item J) := vs.map fun v => .child nm false v
 
-/-- the last three branches of base.py:477-492: a value that is not a non-empty sequence is one child; a list
-    of mappings/sequences is one child per item; a list of anything else is one child per item unless the
-    declared child has a list type (or, with `attr_prefix=''`, the name is an attribute) -/
+/-- `get_xmlns_from_data(item)` for a child value: the declarations of a mapping, nothing otherwise -/
+def xmlnsOfJ (o : Opts) : J → List (String × String)
+  | .dict kvs => xmlnsOf o kvs
+  | _ => []
+
+/-- one child per item, each named by the key un-mapped with the declarations that the item carries
+    (base.py:478-481, the loop `for item in value`) -/
+def kidsX (o : Opts) (m : Mapper) (name : String) (vs : List J) : List (Item J) :=
+  vs.map fun v => .child (m.umX (xmlnsOfJ o v) name) false v
+
+/-- the last three branches of base.py:475-495: a value that is not a non-empty sequence is one child, named
+    by the key un-mapped with the value's own declarations; a list with at least one mapping/sequence among its
+    items is one child per item, each item resolving the key with its own declarations; a list of anything else
+    is one child per item unless the declared child has a list type (or, with `attr_prefix=''`, the name is an
+    attribute), the key un-mapped in the element's context -/
 def putValue (o : Opts) (m : Mapper) (f : Facts) (a : Acc) (name : String) (value : J) : Acc :=
   let nm := m.um name
   let items : Option (List J) := match value with
@@ -159,9 +171,9 @@ def putValue (o : Opts) (m : Mapper) (f : Facts) (a : Acc) (name : String) (valu
     | .elem _ _ _ (k0 :: ks) _ _ => some (k0 :: ks)
     | _ => none
   match items with
-  | none => { a with content := a.content ++ [.child nm false value] }
+  | none => { a with content := a.content ++ [.child (m.umX (xmlnsOfJ o value) name) false value] }
   | some (v0 :: vs) =>
-    if v0.isMap || v0.isSeq then { a with content := a.content ++ kidsOf nm (v0 :: vs) }
+    if (v0 :: vs).any (fun v => v.isMap || v.isSeq) then { a with content := a.content ++ kidsX o m name (v0 :: vs) }
     else match findChild f nm with
       | some ch =>
         if ch.isList then { a with content := a.content ++ [.child nm false value] }
